@@ -2,6 +2,7 @@ import AvroModel.Props.C13
 import AvroModel.Props.C09
 import AvroModel.Props.C07
 import AvroModel.Lemmas.EndToEnd
+import AvroModel.Lemmas.Crash
 import AvroModel.Lemmas.RoundTrip
 import AvroModel.Lemmas.NormSpec
 import AvroModel.Lemmas.ReadBudget
@@ -127,6 +128,43 @@ example : ∃ s' w', encRun exCfg {} (exOps ++ [.flush]) = (s', w', none) ∧ s'
     (by decide) (fun r => r.headD 0)
     (by intro r hr rest; simp [exOps, encodings] at hr; rcases hr with rfl | rfl | rfl | rfl <;> rfl)
     (by decide) (by decide) (fun _ => none) (fun _ => rfl)
+  simpa [exOps, encodings] using this
+
+/-- **C01, whole files, with the writer's header.** `file_roundtrip` for the header the library writes:
+`cfg.header` is `mkHeader` of the single metadata block `avro.schema = js`, `avro.codec = name` with the
+writer's 16-byte sync marker (`Lemmas/File.lean`; the specification-side reader reads it back as those
+entries: `C02.spec_reader_reads_header`). The abstract hypothesis "`cfg.header` is a header the reader
+accepts" is replaced by what it takes for that header: the schema JSON builds the record decoder
+(`X.build js = some rc`) and `name` is one of `null`/`deflate`/`snappy`, selecting `sel`
+(`Crash.CodecName`). The other hypotheses and the conclusion are those of `file_roundtrip`. -/
+theorem file_roundtrip_mkHeader {α ε : Type} (cfg : EncCfg) (ops : List EncOp) (js name : Bytes)
+    (hhdr : cfg.header = File.mkHeader [[(File.kSchema, js), (File.kCodec, name)]] cfg.sync)
+    (hsync : cfg.sync.length = 16) (hjs : js.length ≤ File.maxLen)
+    {X : File.Ext α} {fuel : Nat} {sel : File.CodecSel} {rc : File.RecCodec α}
+    (hname : Crash.CodecName name sel) (hbuild : X.build js = some rc)
+    (hcomp : ∀ x, File.decompress X sel (cfg.compress x) = .ok x)
+    (hsmall : ∀ blk ∈ (specPart cfg.blockSize (ops ++ [.flush]) []).1, (cfg.compress blk.flatten).length ≤ File.maxLen)
+    (dec : Bytes → α) (hdec : ∀ r ∈ encodings ops, ∀ rest, rc.decode (r ++ rest) = .ok (dec r, rest))
+    (hf : 1 < fuel) (hn : (encodings ops).length < fuel) (hn63 : (encodings ops).length < 2 ^ 63)
+    (cb : Nat → Option ε) (hcb : ∀ i, cb i = none) :
+    ∃ s' w', encRun cfg {} (ops ++ [.flush]) = (s', w', none) ∧ s'.count = 0 ∧ s'.wb = [] ∧
+      File.readFile X fuel cb w'.accepted = ⟨(encodings ops).map dec, .ok⟩ := by
+  have hh : File.ValidHeader X fuel cfg.header
+      { «meta» := File.metaOf [Crash.writerMeta js name], sync := cfg.sync } sel rc := by
+    rw [hhdr]
+    exact Crash.valid_writerHeader X js name cfg.sync fuel hf hsync hjs sel rc hname hbuild
+  exact file_roundtrip cfg ops hh rfl hcomp hsmall dec hdec hn hn63 cb hcb
+
+/-- the hypotheses of `file_roundtrip_mkHeader` are met by the history above (`exCfg.header = C07.exHdr`
+is such a header: schema `"`, codec null) -/
+example : ∃ s' w', encRun exCfg {} (exOps ++ [.flush]) = (s', w', none) ∧ s'.count = 0 ∧ s'.wb = [] ∧
+    File.readFile C07.exX 9 (fun _ => (none : Option Unit)) w'.accepted = ⟨[1, 2, 3, 4], .ok⟩ := by
+  have := file_roundtrip_mkHeader (ε := Unit) (X := C07.exX) (fuel := 9) (sel := .null)
+    (rc := { decode := fun bs => match bs with | [] => .err | b :: r => .ok (b, r) })
+    exCfg exOps [0x22] File.vNull rfl (by decide) (by decide) (Or.inl ⟨rfl, rfl⟩) rfl (fun x => rfl)
+    (by decide) (fun r => r.headD 0)
+    (by intro r hr rest; simp [exOps, encodings] at hr; rcases hr with rfl | rfl | rfl | rfl <;> rfl)
+    (by decide) (by decide) (by decide) (fun _ => none) (fun _ => rfl)
   simpa [exOps, encodings] using this
 
 /-! ### Values: what is read back is the normal form of what was written -/
